@@ -40,4 +40,25 @@ def mpointEndsOK (stride : Nat) : List Nat → Nat → Bool
   | [], _ => true
   | e :: es, off => (e == off || e == off + stride) && mpointEndsOK stride es e
 
+/-! ## End offsets a nested coordinate array must produce -/
+
+/-- End offsets produced for a list of coordinate lists starting at `off`. -/
+def endsOf (off : Nat) : List (List (List α)) → List Nat
+  | [] => []
+  | cs :: rest => (off + cs.flatten.length) :: endsOf (off + cs.flatten.length) rest
+
+def endssOf (off : Nat) : List (List (List (List α))) → List (List Nat)
+  | [] => []
+  | css :: rest => endsOf off css :: endssOf (off + css.flatten.flatten.length) rest
+
+def somes : List (Option (List α)) → List (List α)
+  | [] => []
+  | none :: r => somes r
+  | some c :: r => c :: somes r
+
+def mpEndsOf (off : Nat) : List (Option (List α)) → List Nat
+  | [] => []
+  | none :: r => off :: mpEndsOf off r
+  | some c :: r => (off + c.length) :: mpEndsOf (off + c.length) r
+
 end GeomVerif
